@@ -69,7 +69,7 @@ def position_projects(placements, rng):
 
 def run(ctx):
     rng = random.Random(ctx.seed * 7919 + 2)
-    mc = sc.model_check(6 if ctx.quick else 8)
+    mc = sc.model_check(7 if ctx.quick else 11)
     depth = 2 if ctx.quick else 3
     pr, slots = sc.model_check_positions(depth, emit=True)
     placements = pr.printed.get("POS", [])
